@@ -84,14 +84,16 @@ Definition cannot_collect (g : list cg_fn) (f : cg_fn) : bool :=
   closed g [cg_id f] (reach_from g [cg_id f])
   && disjoint (do_collection_ids g) (reach_from g [cg_id f]).
 
+(* [if] rather than [||]: the VM evaluates arguments eagerly, and [cannot_collect] is expensive. *)
 Definition arena_method_ok (g : list cg_fn) (f : cg_fn) : bool :=
-  negb (mem (cg_owner f) arena_owners)
-  || recv_exclusive (cg_recv f)
-  || cannot_collect g f.
+  if mem (cg_owner f) arena_owners
+  then (if recv_exclusive (cg_recv f) then true else cannot_collect g f)
+  else true.
 
 Definition collecting_methods (g : list cg_fn) : list string :=
-  map cg_name (filter (fun f => mem (cg_owner f) arena_owners
-                               && existsb (fun d => memN d (reach_from g [cg_id f])) (do_collection_ids g)) g).
+  map cg_name (filter (fun f => if mem (cg_owner f) arena_owners
+                               then existsb (fun d => memN d (reach_from g [cg_id f])) (do_collection_ids g)
+                               else false) g).
 
 (** The name-based over-approximation itself, re-checked against the generated edges.  A call
     [(q, m)] in the body of [f] must be linked to every function [h] named [m] such that
@@ -127,9 +129,9 @@ Definition must_link (ns : cg_names) (f : cg_fn) (q : string) (h : cg_fn) : bool
 Definition edge_rule_ok (ns : cg_names) (g : list cg_fn) (f : cg_fn) : bool :=
   forallb (fun qn =>
     forallb (fun h =>
-      negb (String.eqb (cg_name h) (snd qn))
-      || negb (must_link ns f (fst qn) h)
-      || memN (cg_id h) (cg_edges f)) g) (cg_call_names f).
+      if String.eqb (cg_name h) (snd qn)
+      then (if must_link ns f (fst qn) h then memN (cg_id h) (cg_edges f) else true)
+      else true) g) (cg_call_names f).
 
 (** Callback-taking functions of arena.rs: they either borrow / consume an arena ([self] receiver) or
     build a fresh context themselves. *)
